@@ -2802,9 +2802,10 @@ impl Value {
                 }
                 Value::Complex(arr) => {
                     let c = arr.data[0];
-                    if c == Complex::I {
+                    // `i` has a real part of 0 and `¯i` has a real part of ¯0
+                    if c == Complex::I && c.re.is_sign_positive() {
                         "i".into()
-                    } else if c == -Complex::I {
+                    } else if c == -Complex::I && c.re.is_sign_negative() {
                         "¯i".into()
                     } else {
                         format!("ℂ{} {}", f64_repr(c.im), f64_repr(c.re))
